@@ -345,6 +345,7 @@ class Symex:
         # initial values.  Every path starts from the freshly imported module (``module_state`` is emptied in
         # ``_explore``); within one path - e.g. the calls of ``run_sequence`` - writes of an earlier call are seen later.
         self.module_state = {}
+        self.memo_state = {}                # results of functions under a memoising decorator (per path)
         self._modinit = {}
         self.fresh_n = 0
         self.on_start = None
@@ -410,6 +411,7 @@ class Symex:
             self.frames, self.module = [], None
             self.fresh_n = 0
             self.module_state = {}
+            self.memo_state = {}
             if self.on_start is not None:
                 self.on_start(self)
             try:
@@ -1950,6 +1952,18 @@ class Symex:
                     a = [f.bound] + a
                 frame = self.bind(fn, a, kw, preset=getattr(f, "defaults", None))
             self.frames, self.module = list(f.frames) + [frame], f.module
+            # memoising decorators (functools.lru_cache / cache): a repeated call with equal (==, hash) arguments returns
+            # the stored result without evaluating the body again - effects of the body (e.g. drawing fresh objects)
+            # happen once per distinct argument tuple; the table lives as long as the path (call history)
+            memo_key = None
+            if _is_memoised(fn):
+                try:
+                    memo_key = (id(fn), tuple((k, v) for k, v in frame.items()))
+                    hash(memo_key)
+                except TypeError:
+                    raise Raised("TypeError", "unhashable argument of a memoised function", node)
+                if memo_key in self.memo_state:
+                    return self.memo_state[memo_key]
             is_gen = getattr(fn, "_sx_is_gen", None)
             if is_gen is None:   # cached on the node: the walk dominates the cost of small inlined helpers
                 is_gen = fn._sx_is_gen = any(isinstance(x, (ast.Yield, ast.YieldFrom)) for x in _walk_noscope(fn))
@@ -1964,6 +1978,8 @@ class Symex:
                 return _TruncatedGen(frame["$yield"])
             if is_gen:
                 return frame.get("$yield", [])
+            if memo_key is not None:
+                self.memo_state[memo_key] = r
             return r
         finally:
             self.frames, self.module = saved
@@ -2772,6 +2788,15 @@ def _load(t):
     t2 = copy.copy(t)
     t2.ctx = ast.Load()
     return t2
+
+
+def _is_memoised(fn):
+    """The function carries functools.lru_cache(...) / functools.cache."""
+    m = getattr(fn, "_sx_memoised", None)
+    if m is None:
+        m = fn._sx_memoised = any(U(d).split("(")[0].split(".")[-1] in ("lru_cache", "cache")
+                                  for d in getattr(fn, "decorator_list", ()))
+    return m
 
 
 def _walk_noscope(fn):
